@@ -821,6 +821,14 @@ class Lifter:
                     if p.lower is None and p.upper is None:
                         newdims.append(base.dims[k])
                         continue
+                    lo = self.ev(p.lower, env, F) if p.lower is not None else None
+                    hi = self.ev(p.upper, env, F) if p.upper is not None else None
+                    if isinstance(lo, Ptr) and isinstance(hi, Ptr) and lo.kind == "grp" and hi.kind == "grp" \
+                            and lo.idx.index == hi.idx.index and lo.idx.off == 0 and hi.idx.off == 1:
+                        g = lo.idx.index
+                        gather[k] = Arr((("grpc", g),), lambda q, g=g: IdxV(("gc", g, q), extent="P"))
+                        newdims.append(("grpc", g))
+                        continue
                     raise Unsupported("partial slice of an array")
                 v = self.ev(p, env, F)
                 if isinstance(v, IdxV):
@@ -975,6 +983,12 @@ class Lifter:
                 return TupleV([Csc("data", mat, ext, data.nrows), Csc("indptr", mat, ext, data.nrows),
                                Csc("indices", mat, ext, data.nrows)])
             raise Unsupported("sparse_columns_slice arguments")
+        if name == "np.where" and len(args) == 3:
+            c, a, b = args
+
+            def f3(cc, x, y):
+                return cc * x + (const(1) - cc) * y
+            return ew(f3, c, a, b)
         if name == "np.any":
             return self.np_any(args[0])
         if name == "np.all":
@@ -1052,6 +1066,10 @@ class Lifter:
             if isinstance(lo, Ptr) and isinstance(hi, Ptr) and lo.kind == "csc" and hi.kind == "csc" \
                     and lo.idx.index == hi.idx.index and lo.idx.off == 0 and hi.idx.off == 1:
                 return RangeV("csc", col=lo.idx, nrows="N")
+            if isinstance(lo, Ptr) and isinstance(hi, Ptr) and lo.kind == "grp" and hi.kind == "grp" \
+                    and lo.idx.index == hi.idx.index and lo.idx.off == 0 and hi.idx.off == 1:
+                g = lo.idx.index
+                return Arr((("grpc", g),), lambda q, g=g: IdxV(("gc", g, q), extent="P"))
         raise Unsupported("range form")
 
     def dims_from_shape(self, a):
